@@ -1,7 +1,38 @@
-"""C41 — HAR export followed by HAR import preserves the exchange (draft)."""
+"""C41 — HAR export followed by HAR import preserves the exchange.
+
+Statement: exporting HTTP flows to a HAR file and importing that file again yields flows with the same request method, URL,
+HTTP version, request header fields (apart from a recomputed Content-Length), request body for POST/PUT/PATCH, response
+status code, response header fields and decoded response body, in the same order.
+
+T1 (machine-checked on the real source; codecs, URL parsing, ISO dates and base64 are uninterpreted library functions):
+  * har.fix_headers: both HAR header notations -> the same fields in the same order, duplicates kept; short pair => OptionsError;
+  * SaveHar.format_multidict followed by har.fix_headers is the identity on header blocks (order, duplicates);
+  * har.request_to_flow, version mapping: each of mitmproxy's own version strings (HTTP/1.1, HTTP/2.0, HTTP/3), as the exporter
+    writes them, must come back unchanged for request and response independently  [fails for HTTP/2.0: KF-C41-1];
+  * har.request_to_flow, body re-encoding: a base64 body (what the exporter writes for binary content) is imported as exactly
+    those bytes (decoded and raw, no content coding); a text body is encoded with the Content-Type header's charset, an unknown
+    charset falls back to UTF-8/surrogateescape instead of failing; postData.text becomes the request body, entries without
+    postData have an empty body; method and request header fields are taken over, only Content-Length is added.
+T2 (bounded, carries the statement): SaveHar.export_har to a real file -> FlowReader on that file, compared clause by clause over
+  methods x versions x URLs, header sets (duplicates, cookies, odd values), text/binary/empty bodies x content types x charsets x
+  content codings for responses and for POST/PUT/PATCH requests, body-declared charsets, lists of <= 3 flows (order).
+"""
 from pyvc.api import *
 
-CLAIM = "exploration"
+CLAIM = "other"
+EXPLANATION = ("T1 proves the importer's fixed tables and branch structure (header notations, version mapping, base64/text body branches) and "
+               "the header export/import composition on the real source, with codecs/URL parsing/base64/dates as uninterpreted library functions; "
+               "that export followed by import preserves whole exchanges (JSON plumbing, URL handling, charset sniffing, content codings, order) is "
+               "bounded: T2 through the real export_har command and the real FlowReader.")
+ASSUMPTIONS = [
+    "mitmproxy.net.encoding.encode/decode are summarised: uninterpreted per (data, coding) with decode(encode(x, c), c) == x; 'identity' is the identity; an unknown codec raises ValueError (other exception types are not modelled)",
+    "mitmproxy.net.http.headers.infer_content_encoding is an uninterpreted function of the Content-Type text; mitmproxy.net.http.url.parse is summarised by its result for the one URL used in T1",
+    "base64.b64decode/b64encode: uninterpreted with b64decode(b64encode(x)) == x (pyvc/libx_addons.py, libx_compat.py)",
+    "datetime.fromisoformat(s).timestamp() is an uninterpreted function of s; time.time()/uuid4 are fresh values",
+    "header names/values in T1 are ASCII (str.encode / bytes.decode are the identity on ASCII); non-ASCII and non-UTF-8 header bytes are T2 only",
+    "SaveHar.flow_entry / make_har (JSON, timings, cookies, URL rendering) are exercised in T2 only",
+    "flows in T2 are built the way mitmproxy's HTTP layers build them (Host header for HTTP/1.1, :authority for HTTP/2 and HTTP/3, raw content-coded bodies); HTTP/1.0 is outside the statement's quantifier",
+]
 R2F = "mitmproxy.io.har:request_to_flow"
 FIX = "mitmproxy.io.har:fix_headers"
 SH = "mitmproxy.addons.savehar:SaveHar"
